@@ -44,7 +44,7 @@ def noStale (st : List Status) (ps : List ImplPeer) (rx : Nat → Option Nat) : 
     | _ => false
   bad.map fun _ => "reserved-without-an-unchoked-peer-asked-for-it"
 
-def c12core (t4 : Bool) (args res : List String) : Verdict :=
+def c12core (t4 : Bool) (args res : List String) (c13 : Bool := false) : Verdict :=
   match args, res with
   | ["hist", nps, _tieSeed, ops], [outs] =>
     match nps.toNat? with
@@ -121,9 +121,23 @@ def c12core (t4 : Bool) (args res : List String) : Verdict :=
                   (if hasPiece ((target.set i true)) i && s.statuses.getD i .have ≠ .have then none else some "iv-asked-for-unadvertised-or-owned")
                 else if admissible stAtChoice piecesAtChoice tgtAtChoice (some i) then none else some "iv-asked-pick-not-admissible"
               | none => none
+            -- C13 on the pick made on the Have path (`Peer::handle_have` assigns the announced piece without consulting
+            -- the chooser): eligible and rarest among what the peer advertises *after* the announcement
+            let havePick : Option Verdict := match replyIdx with
+              | some i =>
+                if c13 ∧ c = 'h' then
+                  let tgt' := target.set i true
+                  let pcs' := s.peers.map (fun p => if p.addr = a then tgt' else p.pieces)
+                  if admissible s.statuses pcs' tgt' (some i) then none
+                  else if decide (eligible s.statuses pcs' tgt' i) then
+                    some { text := "known C13-have-path-pick-ignores-rarity", tag := "hist-have-path-pick-not-rarest" }
+                  else some (vProp "T1-have-path-pick-not-eligible" s!"op-{c}")
+                else none
+              | none => none
             match askedBad with
             | some cl => some (vProp cl s!"op-{c}")
             | none =>
+            if havePick.isSome then havePick else
             -- (i) Have is absorbing
             if (List.range np).any (fun i => s.statuses.getD i .missing = .have && implSt.getD i .missing ≠ .have) then
               some (vProp "i-have-not-absorbing" s!"op-{c}") else
@@ -157,6 +171,10 @@ def c12core (t4 : Bool) (args res : List String) : Verdict :=
   | _, _ => vBad (joinToks args)
 
 def c12 (args res : List String) : Verdict := c12core false args res
+
+/-- The manager histories as C13 reads them: every pick, also the one made on the Have path, is judged by C13's
+    `admissible` (eligible and rarest). -/
+def c13hist (args res : List String) : Verdict := c12core false args res (c13 := true)
 
 /-- The manager histories as C02 reads them: T3 (the number of pieces not owned never goes up) is evaluated on the
     implementation's own snapshots first; the correspondence with the manager model (on which T2/T3 are proved) is
